@@ -10,11 +10,16 @@ LEVEL = 'proof'
 PROP = 'C15'
 MANIFEST = dict(
     text='Lean 4 theorems over a ledger model of every place where netpoll obtains, hands over or closes a descriptor '
-         '(connection incl. the netFD copy and Detach, listener, dialer with retry loop, poller; every error branch; any number of '
+         '(connection incl. the netFD copy and Detach, the net.Conn that Listener.Accept returns, listener, dialer with retry loop, '
+         'poller; every error branch; any number of '
          'lifecycles interleaved at event granularity with an adversary reusing freed numbers): every close hits a number owned at that '
-         'moment, none twice, nothing left. Tied to /repo on every run by the extracted set of close call sites (kernel-checked equality '
-         'with the sites the model reaches) and by an strace audit of real lifecycles whose event sequences are judged by the Lean '
-         'monitors and replayed through the model.',
+         'moment, none twice, nothing left; and the poller pool (model of C18) sends every poller it drops - by a shrinking '
+         'reconfiguration, Reset, a failed Run or Close - its close request exactly once. Tied to /repo on every run by the extracted '
+         'set of close call sites (kernel-checked equality with the sites the model reaches), by the extracted close-once guard of '
+         'netFD.Close (one atomic read-modify-write is the only access to the counter), and by an strace audit of real lifecycles '
+         '(echo, shutdown, Detach, failed registration, listeners, dial failures before and after connect, kernel self-connect in a '
+         'private network namespace, pool grow/shrink/reset, several goroutines closing one netFD at the same instant, descriptor '
+         'limits) whose event sequences are judged by the Lean monitors and replayed through the model.',
     note='Trusted: Lean kernel; axioms propext/Classical.choice/Quot.sound; extractor; strace, the harness markers and the log parser; '
          'npdriver. Assumed: other goroutines close only their own descriptors; numbers 0-2 are never handed to netpoll; nothing-left '
          'additionally assumes SetNonblock does not fail inside ConvertListener and epoll_wait fails only with EINTR (witness '
@@ -22,7 +27,10 @@ MANIFEST = dict(
          'since fix ea4a5ab (F1: CreateListener closes what net.Listen opened); the pollers a failing manager.Run had already opened are '
          'closed by its error path since fix a1c21fb (F2; modelled and proved in C18, executed here under RLIMIT_NOFILE): both scenarios '
          'must leave nothing open. The connection-level protocol (C05) is not assumed: close callbacks may run any number '
-         'of times. Branches needing a failing setsockopt/epoll_ctl are covered by the model and the site tie, not by execution.',
+         'of times. Branches needing a failing setsockopt/epoll_ctl are covered by the model and the site tie, not by execution. '
+         'Concurrent Close calls on one netFD are executed (spin barrier), but the window of a check-then-act guard is a few '
+         'nanoseconds: there the tie lemma netFD_close_decided_by_one_rmw is what is certain, the execution is a sample. The '
+         'self-connect scenario needs `unshare -n` (narrow port range in a private namespace); without it it runs but rarely self-connects.',
     technique='Lean 4 invariant proof over an effect-monad model (weakest preconditions per Go function, global composition) '
               '+ syscall-level audit replayed through the model', design='§6 C15')
 MODULES = ['Netpoll.Props.C15', 'Netpoll.Tie.Fd']
@@ -30,7 +38,9 @@ MIRRORED = ('netFD.Close', 'listener.Close', 'listener.Accept', 'listener.parseF
             'socket', 'netFD.dial', 'netFD.connect', 'sysDialer.dialTCP', 'sysDialer.dialUnix', 'unixSocket', 'openDefaultPoll',
             'defaultPoll.Wait', 'defaultPoll.handler', 'defaultPoll.Close', 'connection.init', 'connection.initNetFD',
             'connection.initFinalizer', 'connection.Detach', 'connection.register', 'connection.onPrepare', 'NewFDConnection',
-            'server.Close', 'server.onAccept', 'newNetFD')
+            'server.Close', 'server.onAccept', 'newNetFD',
+            # the pool that sends every poller its close request (model: Netpoll.Manager, theorem C15_pool_closes_every_poller)
+            'manager.Run', 'manager.Close', 'manager.Reset')
 EXPECTED_FP = os.path.join(common.VERIF, 'lib', 'expected_fp_c15.json')
 PROBES = {}   # scenario -> (id of the known finding it exhibits, descriptors left); none at present (F1, F2 are fixed: a leak there is a violation)
 
@@ -41,14 +51,29 @@ def fingerprint_changes():
     changed += [n + ' (removed)' for n in MIRRORED if n not in cur and n in exp]
     return changed
 
+FLAGS = {}   # scenario -> flags printed by `fdaudit list` after the name (netns: run in a private network namespace)
+
 def scenario_names(binary):
     rc, out = common.sh([binary, 'list'])
-    return [l for l in out.split('\n') if l.strip()]
+    names = []
+    for l in out.split('\n'):
+        w = l.split()
+        if w:
+            names.append(w[0]); FLAGS[w[0]] = tuple(w[1:])
+    return names
 
 def run_batch(binary, jobs, wd):
     """jobs: [(scenario, seed)] -> [(scenario record, verdict dict)]"""
+    run1 = lambda j: fdrun.run_scenario(binary, j[0], j[1], wd, flags=FLAGS.get(j[0], ()))
+    # scenarios that need several threads to run at the same instant go first, three at a time (four spinning threads each)
+    quiet = [j for j in jobs if 'quiet' in FLAGS.get(j[0], ())]
+    done = {}
+    with ThreadPoolExecutor(3) as ex:
+        for j, sc in zip(quiet, ex.map(run1, quiet)): done[j] = sc
+    rest = [j for j in jobs if j not in done]
     with ThreadPoolExecutor(16) as ex:
-        scs = list(ex.map(lambda j: fdrun.run_scenario(binary, j[0], j[1], wd), jobs))
+        for j, sc in zip(rest, ex.map(run1, rest)): done[j] = sc
+    scs = [done[j] for j in jobs]
     blocks = [fdrun.op_lines(sc) for sc in scs]
     # judge in parallel chunks (the model search is single threaded)
     chunks = [list(range(i, len(scs), 8)) for i in range(8)]
@@ -217,6 +242,22 @@ def site_diff():
         return ''
     return ' | close sites in /repo unknown to the model: %s; sites of the model missing in /repo: %s' % (sorted(set(new)), sorted(set(gone)))
 
+def guard_diff():
+    """the extracted close-once facts of netFD.Close when they differ from what Netpoll.Tie.Fd.netFD_close_decided_by_one_rmw states"""
+    import re
+    try:
+        src = open(os.path.join(common.LEAN, 'Netpoll', 'Gen', 'Fd.lean')).read()
+    except Exception:
+        return ''
+    acc = re.search(r'def netFDClosedAccesses[^\n]*:= \[(.*?)\]\n', src, re.S)
+    first = re.search(r'def netFDCloseFirstStmt : String := (.*)', src)
+    a = ' '.join(acc.group(1).split()) if acc else '?'
+    f = first.group(1).strip() if first else '?'
+    if a == '("netFD.Close", "atomic.AddUint32(&c.closed, 1)")' and f == '"if atomic.AddUint32(&c.closed, 1) != 1 { return nil }"':
+        return ''
+    return (' | netFD.Close no longer decides by one atomic read-modify-write: accesses to netFD.closed in /repo: [%s]; first statement of netFD.Close: %s '
+            '(two overlapping Close calls can both reach syscall.Close; executed by scenario netfd-close-race)' % (a, f))
+
 def site_table():
     """names of the model's sites, from the Lean source (the tie lemma is what checks them against /repo)"""
     import re
@@ -241,8 +282,9 @@ def report(rep, problems, proof_broken, final):
                       % (rep.cov['evaluations'], text, len(conf)), lines, no_input=True)
     elif proof_broken:
         extra = site_diff()
-        rep.violation('proof obligation / tie lemma (Netpoll.Tie.Fd.closeSites_eq_covered) broken and no failing run found in %d scenario runs: %s%s'
-                      % (rep.cov['evaluations'], proof_broken, extra),
+        rep.violation('proof obligation / tie lemma (Netpoll.Tie.Fd: closeSites_eq_covered - the close call sites; netFD_close_decided_by_one_rmw - '
+                      'the close-once guard of netFD.Close) broken and no failing run found in %d scenario runs: %s%s'
+                      % (rep.cov['evaluations'], proof_broken, extra + guard_diff()),
                       ['# ' + l for l in (proof_broken + extra).split('\n')], no_input=True)
     elif harness:
         kind, text, lines = harness[0]
@@ -292,7 +334,8 @@ def replay(rep, path):
             rep.violation('harness does not build', ['# go build failed'], no_input=True)
             return rep.finish(LEVEL)
         for k in range(3):
-            sc = fdrun.run_scenario(binary, w[1], int(w[3]) + k * 7, os.path.join(common.WORK, 'replay'))
+            scenario_names(binary)
+            sc = fdrun.run_scenario(binary, w[1], int(w[3]) + k * 7, os.path.join(common.WORK, 'replay'), flags=FLAGS.get(w[1], ()))
             b = fdrun.op_lines(sc)
             v = fdrun.judge([b])[0]
             rep.cov['evaluations'] += 1
